@@ -542,6 +542,11 @@ def merge_sequences(sequences):
   for seq in sequences:
     cat_seq.MergeFrom(seq)
 
+  # MergeFrom keeps only the last total_time; the merged sequence lasts as long
+  # as its longest input.
+  if sequences:
+    cat_seq.total_time = max(seq.total_time for seq in sequences)
+
   # Delete subsequence_info because we've joined several subsequences.
   cat_seq.ClearField('subsequence_info')
   return remove_redundant_data(cat_seq)
